@@ -1,4 +1,4 @@
-import DaeVerif.C15.Proofs
+import DaeVerif.C15.ConcProofs
 /-!
 # C15 — property theorems
 
@@ -733,5 +733,168 @@ theorem selectAll_lists_only_possible_answers (g : Group) (t : NetType) (strict 
     (l : List SelOk) (hl : selectAll g t strict excl = .ok l) (x : SelOk) (hx : x ∈ l) :
     ∃ rnd, select rnd g t strict excl = .ok x :=
   selectAll_complete g t strict excl hl hx
+
+/-! ## G. the concurrent parts (`Conc.lean`): all interleavings
+
+The sequential model treats three things as atomic that the code does in several locked steps.
+Each is a transition system of its own here, and the statements are about **every** schedule.
+
+### G1. reports are taken and delivered separately
+
+`AWorld` = the world + the `collectionUpdate`s taken (`mark`: `markUnavailableInternal` /
+`markAvailableTraffic`, `obs`: `markAvailable`) and not yet handed to `informDialerGroupUpdate`
+(`deliver`, in any order; since `fix:` 13e43e7 the set reads the dialer's flag and latency *at
+delivery*) + the sets a policy switch `fixed → random/min*` is building (`pbegin`, `pbuild`×6, `pend`).
+Sequential events (`sync e`: report + delivery in one go, policy switch in one go, penalty change,
+`RestoreHealthSnapshot`) are the old `stepWcb`. -/
+
+/-- **Full statement** (what the property needs of the concurrent report paths): after every
+history of the asynchronous world that only names members — taken apart or not, in any order — each
+set agrees with the dialer-side flag on every (domain, member) about which no update that captured
+the group's current sets is still in flight.  **False of the code as it is**: see the witness after
+`deliveries_agree_except_pending_partial` (open finding `c15-report-lost-in-set-build-window`). -/
+def deliveries_agree_except_pending_full : Prop :=
+  ∀ (n : Nat) (tol : Int) (offs : Nat → Int) (p : Policy) (fi : Int) (alive0 : Nat → Nat → Bool)
+    (colls0 : Nat → Nat → Coll) (pens0 : Nat → Nat → Int) (h : List AEv), (∀ e ∈ h, AMem n e) →
+    let aw := runA (AWorld.ofWorld (worldNew n tol offs p fi alive0 colls0 pens0)) h
+    aw.w.g.hasSets = true → ∀ t, t < 6 → ∀ d, d < n →
+      (∃ q ∈ aw.pend, q.t = t ∧ q.d = d ∧ q.gen = aw.gen) ∨ (aw.w.g.sets t).isAlive d = aw.w.g.alive t d
+
+/-- **Deliveries in any order converge on the dialer's state** — proved for every history in which
+no dialer flag is written *while a policy switch sits between building its sets and registering
+them* (`AOk`; everything else is free: any number of updates in flight about the same pair,
+deliveries overtaking each other, policy switches, penalty changes, restores and selections in
+between, updates that outlive the sets they captured).  Then each set agrees with the flag on every
+(domain, member) not explained by an update in flight; all the index / cached-best invariants hold
+(`GMInv`), so every selection theorem of section D applies at every point of the schedule.
+`_partial`: the `AOk` side condition, which the code does not enforce. -/
+theorem deliveries_agree_except_pending_partial (n : Nat) (tol : Int) (offs : Nat → Int) (p : Policy)
+    (fi : Int) (alive0 : Nat → Nat → Bool) (colls0 : Nat → Nat → Coll) (pens0 : Nat → Nat → Int)
+    (h : List AEv) (hok : AOk n (AWorld.ofWorld (worldNew n tol offs p fi alive0 colls0 pens0)) h) :
+    let aw := runA (AWorld.ofWorld (worldNew n tol offs p fi alive0 colls0 pens0)) h
+    (aw.w.g.hasSets = true → ∀ t, t < 6 → ∀ d, d < n →
+      (∃ q ∈ aw.pend, q.t = t ∧ q.d = d ∧ q.gen = aw.gen) ∨ (aw.w.g.sets t).isAlive d = aw.w.g.alive t d) ∧
+    (disagreements aw).filter (fun x => !explained aw x.1 x.2) = [] ∧
+    (aw.w.g.policy ≠ .fixed → ∀ (rnd : Nat → Nat → Nat → Nat) (t : NetType) (strict : Bool) (excl : Option Nat),
+      (∀ x, select rnd aw.w.g t strict excl = .ok x →
+        (∃ ty ∈ chain t aw.w.g.policy, Admitted aw.w.g excl ty x) ∨
+        (strict = false ∧ (∀ ty ∈ chain t aw.w.g.policy, ∀ e ∈ (aw.w.g.sets ty.index).entries, excl = some e.d) ∧
+          ∃ ty ∈ chain t.flip aw.w.g.policy, Admitted aw.w.g excl ty x) ∨
+        (strict = true ∧ aw.w.g.n = 1 ∧ x = ⟨0, dialTimeout, (preferAlt aw.w.g 0 t).index⟩ ∧
+          ∀ ty ∈ chain t aw.w.g.policy, ∀ e ∈ (aw.w.g.sets ty.index).entries, excl = some e.d)) ∧
+      (select rnd aw.w.g t strict excl = .error .noAlive ↔
+        aw.w.g.n ≠ 0 ∧ ¬ (strict = true ∧ aw.w.g.n = 1) ∧
+        ∀ ty ∈ tried aw.w.g t strict, ∀ e ∈ (aw.w.g.sets ty.index).entries, excl = some e.d)) := by
+  intro aw
+  have hi : AInv n aw := ainv_run h _ (ainv_init (wm_new n tol offs p fi alive0 colls0 pens0)) hok
+  have hbi := fun ty => (hi.gm.sets ty).1.bestIn
+  refine ⟨fun hh t ht d hd => hi.agree hh t ht d (by rw [hi.hn]; exact hd), unexplained_nil hi, ?_⟩
+  intro hp rnd t strict excl
+  exact ⟨fun x hs => select_ok_full hp hbi hs, select_noAlive_iff hp hbi⟩
+
+/-- **… with no side condition when policy switches are atomic** (`sync (.policy …)`, as every switch
+that keeps or drops the sets is, and as the sequential model treats all of them): every history of
+reports taken and delivered in any order, members only. -/
+theorem deliveries_agree_with_atomic_policy_switches (n : Nat) (tol : Int) (offs : Nat → Int) (p : Policy)
+    (fi : Int) (alive0 : Nat → Nat → Bool) (colls0 : Nat → Nat → Coll) (pens0 : Nat → Nat → Int)
+    (h : List AEv) (hm : ∀ e ∈ h, AMem n e) (hat : ∀ e ∈ h, e.isSplit = false) :
+    let aw := runA (AWorld.ofWorld (worldNew n tol offs p fi alive0 colls0 pens0)) h
+    aw.w.g.hasSets = true → ∀ t, t < 6 → ∀ d, d < n →
+      (∃ q ∈ aw.pend, q.t = t ∧ q.d = d ∧ q.gen = aw.gen) ∨ (aw.w.g.sets t).isAlive d = aw.w.g.alive t d :=
+  (deliveries_agree_except_pending_partial n tol offs p fi alive0 colls0 pens0 h
+    (aok_of_atomic h _ rfl hm hat)).1
+
+/-- **Quiescence**: once every update has been delivered, the sets agree with the flags outright
+(`group_sets_agree_with_flags` for the concurrent report paths). -/
+theorem quiescent_sets_agree_with_flags (n : Nat) (tol : Int) (offs : Nat → Int) (p : Policy)
+    (fi : Int) (alive0 : Nat → Nat → Bool) (colls0 : Nat → Nat → Coll) (pens0 : Nat → Nat → Int)
+    (h : List AEv) (hok : AOk n (AWorld.ofWorld (worldNew n tol offs p fi alive0 colls0 pens0)) h) :
+    let aw := runA (AWorld.ofWorld (worldNew n tol offs p fi alive0 colls0 pens0)) h
+    aw.pend = [] → aw.w.g.hasSets = true → ∀ t, t < 6 → ∀ d, d < n →
+      (aw.w.g.sets t).isAlive d = aw.w.g.alive t d := by
+  intro aw hp hh t ht d hd
+  rcases (deliveries_agree_except_pending_partial n tol offs p fi alive0 colls0 pens0 h hok).1 hh t ht d hd
+    with ⟨q, hq, _⟩ | h2
+  · rw [hp] at hq; cases hq
+  · exact h2
+
+-- non-vacuity: two updates about (tcp4, node 1) cross — "dead" is taken first, "alive, 40 ns" second, and
+-- they are delivered in the opposite order; in between the set disagrees with the flag (explained by the
+-- update in flight), at the end it agrees: node 1 alive with its sample.
+example :
+    let w0 := worldNew 2 0 (fun _ => 0) .minLast 0 (fun _ _ => true) (fun _ _ => Coll.empty) (fun _ _ => 0)
+    let h : List AEv := [.mark 0 2 1 false, .obs 1 2 1 40, .deliver 1, .deliver 0]
+    AOk 2 (AWorld.ofWorld w0) h ∧
+    ((runA (AWorld.ofWorld w0) (h.take 1)).w.g.sets 2).isAlive 1 = true ∧
+    (runA (AWorld.ofWorld w0) (h.take 1)).w.g.alive 2 1 = false ∧
+    (runA (AWorld.ofWorld w0) h).pend = [] ∧
+    ((runA (AWorld.ofWorld w0) h).w.g.sets 2).isAlive 1 = true ∧
+    getMin ((runA (AWorld.ofWorld w0) h).w.g.sets 2) none = (some 1, 40) := by
+  intro w0 h
+  refine ⟨aok_of_atomic _ _ rfl ?_ ?_, by decide, by decide, by decide, by decide, by decide⟩
+  · intro e he
+    simp only [h, List.mem_cons, List.mem_nil_iff, or_false] at he
+    rcases he with rfl | rfl | rfl | rfl <;> simp [AMem]
+  · intro e he
+    simp only [h, List.mem_cons, List.mem_nil_iff, or_false] at he
+    rcases he with rfl | rfl | rfl | rfl <;> rfl
+
+-- why `AOk` is needed — the open finding, in the model: a `fixed → min` switch builds the dns-udp4 set
+-- (node 1 alive), then node 1 is reported dead for dns-udp4 while the remaining sets are built; the sets
+-- are registered afterwards.  Nobody told the new set: it believes node 1 alive, the flag says dead, and
+-- no update is in flight.  (Replayed on the real code in stream `c15race`.)
+example :
+    let w0 := worldNew 2 0 (fun _ => 0) .fixed 0 (fun _ _ => true) (fun _ _ => Coll.empty) (fun _ _ => 0)
+    let h : List AEv := [.pbegin .minLast 0, .pbuild, .pbuild, .pbuild, .sync (.told 0 1 false),
+      .pbuild, .pbuild, .pbuild, .pend]
+    let aw := runA (AWorld.ofWorld w0) h
+    aw.w.g.hasSets = true ∧ aw.pend = [] ∧ (aw.w.g.sets 0).isAlive 1 = true ∧ aw.w.g.alive 0 1 = false ∧
+    disagreements aw = [(0, 1)] := by decide
+
+/-! ### G2. the callback window of a notification
+
+`notifyLatencyChange` does all its writes, then `mu.Unlock(); aliveChangeCallback(v); mu.Lock()`,
+then only logs — since `fix:` 0a25f68 without reading the set.  `CState` = the set + the window a notification is parked in; steps: a notification
+takes `notifyMu` and runs up to its window (`begin`; refused while another one is parked), the
+callback returns and the rest of the call runs (`finish`), `SetSelectionPolicy` (`mu` only: also
+inside a window), readers (`read`: selections, any time). -/
+
+/-- **Every interleaving is a sequential history**: whatever the schedule of notifications, windows,
+policy switches and readers, the set seen at any point is the set the sequential model reaches by the
+notifications and policy switches that got their lock so far, in lock order.  Hence every statement
+of sections A–C holds at every point of every interleaving; spelled out: no panic point reached, the
+index map is the inverse of the entries array, the cached best is alive, and under a min policy it is
+nil exactly when nobody is alive. -/
+theorem interleavings_refine_sequential (n : Nat) (tol : Int) (offs : Nat → Int) (p : Policy)
+    (tr : List CEv) (hm : ∀ e ∈ tr, CMem n e) :
+    let c := runC (CState.init (ASet.init n tol offs p)) tr
+    let hseq := seqOf (CState.init (ASet.init n tol offs p)) tr
+    c.s = runSet (ASet.init n tol offs p) hseq ∧ HistMem n hseq ∧
+    c.s.panicked = false ∧
+    (∀ k e, c.s.entries[k]? = some e → e.d < n ∧ c.s.idx e.d = Slot.at k) ∧
+    (∀ d k, d < n → c.s.idx d = Slot.at k → ∃ e, c.s.entries[k]? = some e ∧ e.d = d) ∧
+    (∀ d, c.s.minD = some d → ∃ e ∈ c.s.entries, e.d = d) ∧
+    (c.s.policy.isMin = true → (c.s.minD = none ↔ c.s.entries = [])) := by
+  intro c hseq
+  have h1 : c.s = runSet (ASet.init n tol offs p) hseq := runC_state_eq_seq tr _
+  have h2 : HistMem n hseq := seqOf_histMem tr _ hm
+  have hi := index_consistent n tol offs p hseq h2
+  have hb := best_is_alive_and_nil_iff_nobody_alive n tol offs p hseq h2
+  simp only at hi hb
+  rw [← h1] at hi hb
+  exact ⟨h1, h2, hi.1, hi.2.1, hi.2.2.1, hb.1, hb.2.1⟩
+
+-- regression witness of `fix:` 0a25f68 (former finding c15-policy-switch-in-callback-window-nil-deref): node 0
+-- dead, then revived without a latency (window open, callback value `true`), `SetSelectionPolicy(random)`
+-- inside the window resets the cached best, the callback returns.  The rest of the call no longer reads
+-- `minLatency.dialer` (nil here): the model has no crash state, and the schedule is replayed on the real
+-- code in stream `c15race` on every run (a panic there is reported under that key).
+example :
+    let tr : List CEv := [.begin 0 false none, .begin 0 true none, .setPolicy .random (fun _ => none), .read, .finish]
+    (runC (CState.init (ASet.init 1 0 (fun _ => 0) .minLast)) (tr.take 2)).win = some ⟨true⟩ ∧
+    (runC (CState.init (ASet.init 1 0 (fun _ => 0) .minLast)) (tr.take 2)).s.minD = some 0 ∧
+    (runC (CState.init (ASet.init 1 0 (fun _ => 0) .minLast)) tr).win = none ∧
+    (runC (CState.init (ASet.init 1 0 (fun _ => 0) .minLast)) tr).s.minD = none ∧
+    (runC (CState.init (ASet.init 1 0 (fun _ => 0) .minLast)) tr).s.isAlive 0 = true := by decide
 
 end DaeVerif.C15.Props
